@@ -5,16 +5,18 @@
     cfg <npe> <wap> <uas> <rit>        -> ok        quirk switches (0/1): notifyPerElement wakeAtPush
                                                    unregisterAllOnServe refuseBlockingInTx; resets the state
     reset                              -> ok
-    ev wakeups                         -> <A> <outs>
-    ev timeouts <now>                  -> <A> <outs>
-    ev hangup <c> | ev reap <c>        -> <A> <outs>
-    ev conn <c> <now> <cmd> ...        -> <A> <outs>
+    ev wakeups                         -> <A> <tags> <outs>
+    ev timeouts <now>                  -> <A> <tags> <outs>
+    ev hangup <c> | ev reap <c>        -> <A> <tags> <outs>
+    ev conn <c> <now> <cmd> ...        -> <A> <tags> <outs>
          cmd  = bpop:<L|R>:<k|k…>:<ms> | push:<L|R>:<k>:<v|v…> | pop:<L|R>:<k> | multi | exec
          A    = 1 iff the event satisfies `eventOk` in the state before it (the history stays `Allowed`)
+         tags = which conjunct of `eventOk` failed, joined by `,` (`.` = none): multi-key multi-push
+                pop-while-wake exec-conn0 second-bpop hangup-blocked arity
          outs = replies written by this event, `c:r` joined by `,` (`.` = none)
          r    = i<n> | b=<k>=<v> | n | p=<k>=<v> | na | ok | q | e | h<n>
     dump <c|c…> <k|k…>                 -> reg=… wq=… lists=… conns=… lost=<n> stranded=… leftover=… unreg=…
-         reg      `k:c+c…` per key with waiters (first-appearance order) joined by `;`
+         reg      `k:c~dl+c~dl…` per key with waiters (first-appearance order; dl = deadline or inf) joined by `;`
          wq       `c@k` joined by `,`
          lists    `k:v|v…` for every asked key
          conns    `c:<-|B/k|k…/<deadline|inf>/<L|R>><x if peer closed><g if gone><t if in MULTI>` for every asked conn
@@ -102,7 +104,8 @@ def regKeys (reg : List (Key × Waiter)) : List Key :=
 
 def showReg (reg : List (Key × Waiter)) : String :=
   joinOr ";" ((regKeys reg).map fun k =>
-    toHex k ++ ":" ++ String.intercalate "+" ((reg.filter (keyIs k)).map fun e => toString e.2.conn))
+    toHex k ++ ":" ++ String.intercalate "+" ((reg.filter (keyIs k)).map fun e =>
+      toString e.2.conn ++ "~" ++ (match e.2.deadline with | none => "inf" | some d => toString d)))
 
 def showConn (s : State) (c : Conn) : String :=
   let cs := s.conns c
@@ -132,6 +135,42 @@ def dump (s : State) (conns : List Conn) (keys : List Key) : String :=
   s!"reg={showReg s.registry} wq={wq} lists={lists} conns={cs} lost={s.lost.length} " ++
   s!"stranded={joinOr "," stranded} leftover={joinOr "," (leftover.map toString)} unreg={joinOr "," (unreg.map toString)}"
 
+/-! Which conjunct of `dataOk` / `eventOk` fails (mirrors Model/Blocking.lean; the check asserts `A = 1 ↔ no tag`). -/
+
+def dataTags (s : State) (cid : Conn) : Cmd → List String
+  | .bpop _ keys _ =>
+    (if cid == 0 then ["exec-conn0"] else []) ++
+    (if keys.length ≥ 2 then ["multi-key"] else []) ++
+    (if keys.isEmpty then ["arity"] else []) ++
+    (if cid != 0 && (s.conns cid).blocked.isSome then ["second-bpop"] else []) ++
+    (if keys.any (fun k => !noWakeFor s k) then ["pop-while-wake"] else [])
+  | .push _ _ vs => if vs.length ≥ 2 then ["multi-push"] else if vs.isEmpty then ["arity"] else []
+  | .pop _ k => if !noWakeFor s k then ["pop-while-wake"] else []
+  | _ => []
+
+def dataSeqTags (q : Quirks) (now : Nat) (c cid : Conn) : State → List Cmd → List String
+  | _, [] => []
+  | s, cmd :: r => dataTags s cid cmd ++ dataSeqTags q now c cid (dataCmd q now c cid s cmd) r
+
+def topTags (q : Quirks) (now : Nat) (c : Conn) (s : State) : Cmd → List String
+  | .multi => []
+  | .exec =>
+    if (s.conns c).inTx then
+      dataSeqTags q now c 0
+        (emit (setConn s c fun cs => { cs with inTx := false, queue := [] }) c (.arrHdr (s.conns c).queue.length))
+        (s.conns c).queue
+    else []
+  | cmd => if (s.conns c).inTx then [] else dataTags s c cmd
+
+def topSeqTags (q : Quirks) (now : Nat) (c : Conn) : State → List Cmd → List String
+  | _, [] => []
+  | s, cmd :: r => topTags q now c s cmd ++ topSeqTags q now c (topCmd q now c s cmd) r
+
+def eventTags (q : Quirks) (s : State) : Event → List String
+  | .conn c now cmds => if canRun s c then topSeqTags q now c s cmds else []
+  | .hangup c => if (s.conns c).blocked.isSome then ["hangup-blocked"] else []
+  | _ => []
+
 def step (ss : Sess) (ws : List String) : Sess × String :=
   match ws with
   | ["cfg", a, b, c, d] =>
@@ -146,7 +185,7 @@ def step (ss : Sess) (ws : List String) : Sess × String :=
       let ok := eventOk ss.q ss.s e
       let s' := Blk.step ss.q ss.s e
       let newOut := s'.out.drop ss.s.out.length
-      ({ ss with s := s' }, (if ok then "1 " else "0 ") ++ showOuts newOut)
+      ({ ss with s := s' }, (if ok then "1 " else "0 ") ++ joinOr "," (eventTags ss.q ss.s e).eraseDups ++ " " ++ showOuts newOut)
   | ["dump", cs, ks] =>
     match parseNatList cs, parseHexList ks with
     | some cs, some ks => (ss, dump ss.s cs ks)
